@@ -21,6 +21,13 @@ Abstractions.  A record on the wire is `(rid, data)` — `Model/Frame.lean` prov
 framing returns exactly what was written, so a connection direction is a FIFO list of records.
 Payloads and responses are abstract values; the routed handler is an arbitrary function
 `handler : payload → response-or-exception` (`Cfg`), latencies are the order of `finish` actions.
+Every buffer is bounded by an arbitrary capacity (`Cfg`; flow control counted in records): a full
+`pending` blocks the requesters, a full socket direction blocks its writer (`drain`), and the server
+stops reading a connection while its `reqs` queue is full (`await reqs.put`).  `srvq` is the whole
+FIFO of started tasks of a connection: the one `_keep_responding` has already taken off `reqs` and is
+awaiting (head), the content of `reqs`, and the one whose `reqs.put` is blocked (last; nothing can
+overtake it) — hence `srvCap = backlog + 2` (the tie found this: with `+ 1` the replay of real traces
+with `backlog=1` was rejected).
 Futures are identified by their creation index `k` (`reqs[k]` is the history entry of the `k`-th
 Future); `id(fut)` is `reqs[k].id`, chosen by the allocator (action label) subject to CPython's
 rule: **the id of a new object differs from the id of every object that is still alive** — a
@@ -51,6 +58,11 @@ inductive Resp where
 structure Cfg where
   nconn : Nat
   handler : Nat → Resp
+  pendCap : Nat      -- `SocketClient(backlog=…)`: slots of the `pending` SingleLane (`put` blocks when full)
+  wireCap : Nat      -- records a connection's client→server direction can hold (socket + transport buffers)
+  srvCap : Nat       -- server `backlog` + 2: the task `_keep_responding` has taken off `reqs` and is awaiting, the
+                     -- slots of `reqs`, and the record whose `reqs.put` is blocked
+  backCap : Nat      -- records the server→client direction can hold
 
 inductive Stage where
   | pending | wire (c : Nat) | srv (c : Nat) | back (c : Nat) | resolved
@@ -137,12 +149,12 @@ def resultOf (rs : List (Nat × Resp)) (k : Nat) : Option Resp := (rs.find? (fun
 
 def step (c : Cfg) (s : State) : Act → Option State
   | .submit x id =>
-    if Fresh s id then
+    if Fresh s id ∧ s.pending.length < c.pendCap then
       some { s with reqs := s.reqs ++ [⟨x, id⟩], pending := s.pending ++ [(x, s.reqs.length)],
                     stage := upd s.stage s.reqs.length .pending }
     else none
   | .ssubmit x id =>
-    if Fresh s id then
+    if Fresh s id ∧ s.pending.length < c.pendCap then
       some { s with reqs := s.reqs ++ [⟨x, id⟩], pending := s.pending ++ [(x, s.reqs.length)],
                     tasks := s.tasks ++ [(x, s.reqs.length)], sin := s.sin ++ [x],
                     stage := upd s.stage s.reqs.length .pending }
@@ -152,10 +164,12 @@ def step (c : Cfg) (s : State) : Act → Option State
     | (x, k) :: rest, some cn =>
       match s.reqs[k]? with
       | some r =>
-        some { s with pending := rest,
-                      conns := s.conns.set ci { cn with wire := cn.wire ++ [⟨r.id, x, k⟩] },
-                      active := insert s.active r.id k,
-                      stage := upd s.stage k (.wire ci) }
+        if cn.wire.length < c.wireCap then
+          some { s with pending := rest,
+                        conns := s.conns.set ci { cn with wire := cn.wire ++ [⟨r.id, x, k⟩] },
+                        active := insert s.active r.id k,
+                        stage := upd s.stage k (.wire ci) }
+        else none
       | none => none
     | _, _ => none
   | .srvRecv ci =>
@@ -163,8 +177,10 @@ def step (c : Cfg) (s : State) : Act → Option State
     | some cn =>
       match cn.wire with
       | m :: rest =>
-        some { s with conns := s.conns.set ci { cn with wire := rest, srvq := cn.srvq ++ [⟨m.rid, m.data, false, m.gk⟩] },
-                      stage := upd s.stage m.gk (.srv ci) }
+        if cn.srvq.length < c.srvCap then
+          some { s with conns := s.conns.set ci { cn with wire := rest, srvq := cn.srvq ++ [⟨m.rid, m.data, false, m.gk⟩] },
+                        stage := upd s.stage m.gk (.srv ci) }
+        else none
       | [] => none
     | none => none
   | .finish ci j =>
@@ -181,7 +197,7 @@ def step (c : Cfg) (s : State) : Act → Option State
     | some cn =>
       match cn.srvq with
       | t :: rest =>
-        if t.done then
+        if t.done ∧ cn.back.length < c.backCap then
           some { s with conns := s.conns.set ci { cn with srvq := rest, back := cn.back ++ [⟨t.rid, c.handler t.data, t.gk⟩] },
                         stage := upd s.stage t.gk (.back ci) }
         else none
